@@ -40,13 +40,15 @@ prop(
     level="proof",
     design_ref="DESIGN.md section 3, C12",
     groups=[(["./decoder"], r".*")],
-    canaries=[("./decoder", "replay/C12/zz_replay_c12_test.go", "TestVerifReplayC12")],
+    canaries=[("./decoder", "replay/C12/zz_replay_c12_test.go", "TestVerifReplayC12"), ("./decoder", "replay/C12/zz_json_cut_test.go", "TestVerifJsonCutEscapes")],
     claim=(
         "Totality and frame of the hand-written decoders, for every byte string: DecodeCRI, DecodePostgres, nginx error (Decode, extractCustomFields, spaceSplit), "
         "syslog priority, RFC3164 (Decode, validateTimestamp), RFC5424 (Decode, validateTimestamp, parseStructuredData with its closures inlined and bytes.Reader modelled over its real fields, "
         "readUntilSpaceOrNilValue), CSV Decode, atoi/checkNumber/isDigit are proved free of index, slice-bound, division and explicit panics, and to write nothing outside data[0:len(data)] "
         "(modifies / pure clauses checked on every store, append and copy). Faithfulness is proved for CRI (Time = bytes before the first space, 6-byte stream without spaces, Log = the rest minus the newline of partial lines), "
-        "spaceSplit (strictly increasing positions of spaces) and the syslog priority range (0..191, offset 2..4)."
+        "spaceSplit (strictly increasing positions of spaces) and the syslog priority range (0..191, offset 2..4). "
+        "Per-field size limit of the JSON decoder: under the trusted gjson result contract, the cut range of findPos lies inside the string literal, keeps at most the limit in raw bytes and ends exactly before the closing quote "
+        "(jsonCutLen: within the string, within the limit, total on any string) - the fix for values with escape sequences came out of this."
     ),
     undecided=[
         "json and protobuf decoders: behaviour is third-party (insane-json, protocompile): decode/re-encode fidelity is not applicable to contracts on file.d code",
